@@ -8,6 +8,7 @@ def dispatch (line : String) : String :=
   | "gcbfs" :: args => Driver.GcGuard.handleBfs args
   | "ev" :: args => Driver.Expr.handleEv (Driver.Expr.tokenize (" ".intercalate args))
   | "fold" :: args => Driver.Expr.handleFold (Driver.Expr.tokenize (" ".intercalate args))
+  | "meta" :: args => Driver.Expr.handleMeta (Driver.Expr.tokenize (" ".intercalate args))
   | "rules" :: args => Driver.Expr.handleRules (Driver.Expr.tokenize (" ".intercalate args))
   | _ => "bad-op"
 
